@@ -105,9 +105,81 @@ extern "C" {
     fn libc_exit(code: i32) -> !;
 }
 
+// ---- process-wide cache of large blocks -------------------------------------------------------
+// Every case allocates and frees a few buffers of hundreds of KiB to MiB; handing them back to
+// the kernel each time costs more (munmap / page faults) than the checks themselves. Large blocks
+// are rounded up to a power of two and parked in a small global cache instead.
+const CACHE_MIN_SHIFT: usize = 16; // 64 KiB
+const CACHE_MAX_SHIFT: usize = 27; // 128 MiB
+const CACHE_SLOTS: usize = 24;
+const CACHE_CLASSES: usize = CACHE_MAX_SHIFT - CACHE_MIN_SHIFT + 1;
+static CACHE_LOCK: std::sync::atomic::AtomicBool = std::sync::atomic::AtomicBool::new(false);
+static mut CACHE: [[usize; CACHE_SLOTS]; CACHE_CLASSES] = [[0; CACHE_SLOTS]; CACHE_CLASSES];
+static CACHED_BYTES: AtomicUsize = AtomicUsize::new(0);
+const CACHE_BUDGET: usize = 6 << 30;
+
+fn cache_class(size: usize, align: usize) -> Option<usize> {
+    if align > 4096 || size < (1 << CACHE_MIN_SHIFT) || size > (1 << CACHE_MAX_SHIFT) {
+        return None;
+    }
+    Some(size.next_power_of_two().trailing_zeros() as usize - CACHE_MIN_SHIFT)
+}
+
+fn with_cache<R>(f: impl FnOnce(&mut [[usize; CACHE_SLOTS]; CACHE_CLASSES]) -> R) -> R {
+    while CACHE_LOCK.compare_exchange_weak(false, true, Ordering::Acquire, Ordering::Relaxed).is_err() {
+        std::hint::spin_loop();
+    }
+    #[allow(static_mut_refs)]
+    let r = f(unsafe { &mut CACHE });
+    CACHE_LOCK.store(false, Ordering::Release);
+    r
+}
+
+unsafe fn big_alloc(class: usize) -> *mut u8 {
+    let got = with_cache(|c| {
+        for slot in c[class].iter_mut() {
+            if *slot != 0 {
+                let p = *slot;
+                *slot = 0;
+                return p;
+            }
+        }
+        0
+    });
+    let bytes = 1usize << (class + CACHE_MIN_SHIFT);
+    if got != 0 {
+        CACHED_BYTES.fetch_sub(bytes, Ordering::Relaxed);
+        return got as *mut u8;
+    }
+    System.alloc(Layout::from_size_align_unchecked(bytes, 4096))
+}
+
+unsafe fn big_free(ptr: *mut u8, class: usize) {
+    let bytes = 1usize << (class + CACHE_MIN_SHIFT);
+    if CACHED_BYTES.load(Ordering::Relaxed) + bytes <= CACHE_BUDGET {
+        let kept = with_cache(|c| {
+            for slot in c[class].iter_mut() {
+                if *slot == 0 {
+                    *slot = ptr as usize;
+                    return true;
+                }
+            }
+            false
+        });
+        if kept {
+            CACHED_BYTES.fetch_add(bytes, Ordering::Relaxed);
+            return;
+        }
+    }
+    System.dealloc(ptr, Layout::from_size_align_unchecked(bytes, 4096));
+}
+
 unsafe impl GlobalAlloc for VAlloc {
     unsafe fn alloc(&self, layout: Layout) -> *mut u8 {
         account_alloc(layout.size());
+        if let Some(class) = cache_class(layout.size(), layout.align()) {
+            return big_alloc(class);
+        }
         let guard = GUARD.try_with(|g| g.get()).unwrap_or(false);
         if guard && layout.align() <= PAD {
             let total = layout.size() + 2 * PAD;
@@ -136,6 +208,9 @@ unsafe impl GlobalAlloc for VAlloc {
 
     unsafe fn dealloc(&self, ptr: *mut u8, layout: Layout) {
         account_free(layout.size());
+        if let Some(class) = cache_class(layout.size(), layout.align()) {
+            return big_free(ptr, class);
+        }
         // padded blocks are recognised through the per-thread side table (so blocks allocated
         // outside guard mode, or when the table was full, take the plain path)
         if table_remove(ptr as usize) {
